@@ -289,10 +289,11 @@ Definition shown_secret (r : treq) : bs :=
 
 (* The property's own predicate on a request that was OBSERVED to release tokens (the conclusion of
    c12_secret_client_needs_secret): the caller names a configured client, and if that client has a secret
-   the request shows exactly it and carries no verifier. *)
+   the request shows exactly it.  (A request that shows the right secret AND a verifier, released by an
+   implementation more liberal than the model, does not violate the property: the secret was proved.) *)
 Definition obs_secret_shown (i : idp) (r : treq) : bool :=
   match find_client (caller_id r) (clients i) with
-  | Some c => negb (nonempty (cl_secret c)) || (bs_eqb (shown_secret r) (cl_secret c) && negb (nonempty (tr_verifier r)))
+  | Some c => negb (nonempty (cl_secret c)) || bs_eqb (shown_secret r) (cl_secret c)
   | None => false
   end.
 
